@@ -980,6 +980,11 @@ def generic_history(kind, d1, idx, rng):
     rdata = data[:min(B, 20)] if B > 0 else []
     ops = [pump(data[:half], 'write'), dict(op='reset', data=rdata, cap=rng.choice([0, 3, 7, 20])),
            pump(data[half:], 'readfrom'), dict(op='parse', flags=1), dict(op='parsenil'),
+           # unparsed data left in the buffer, more data arrives without a Shrink, and the
+           # next blocks cross the end of what the parser had seen before
+           dict(op='reset'), dict(op='write', p=data[:max(1, B // 2)]), dict(op='parse', flags=0),
+           dict(op='write', p=data[max(1, B // 2):max(1, B // 2) + max(1, B // 3)]),
+           dict(op='parse', flags=0), dict(op='parse', flags=0), dict(op='parse', flags=0),
            dict(op='reset'), dict(op='write', p=data[:min(len(data), B + 5)]), dict(op='shrink'),
            # a caller slice whose capacity lies just above BufferSize (BufferSize..BufferSize+6), then ReadFrom
            dict(op='reset', data=data[:max(0, B - 4)], cap=rng.choice([7, 8, 10])) if 4 < B <= 250 else dict(op='reset'),
@@ -1219,7 +1224,7 @@ SUFFIX_ASSUME = [
     'recorded texts are <= 4096 bytes (<= 1500 in the quick tier; <= 700 for single runs, <= 600 for Segments): deep DivSufSort paths that need larger inputs with production thresholds are reached through the verif-tagged SortCfg hook only (informational DRIFT09 rules)',
 ]
 
-MIX_GENERAL = dict(walks=140, hp=450, design=('GSAP.tla', 'GSAP_q.cfg', 'GSAP_mn.cfg', 300), go=[('parser', 350), ('parser-runs', 49), ('parser-osap', 28), ('parser-cap', 28), ('parser-sa-ntl', 70), ('parser-ntlfuture', 100), ('parser-ntlcollide', 45), ('parser-alias', 42), ('parser-collide', 42)])
+MIX_GENERAL = dict(walks=140, hp=450, design=('GSAP.tla', 'GSAP_q.cfg', 'GSAP_mn.cfg', 300), go=[('parser', 350), ('parser-runs', 49), ('parser-osap', 28), ('parser-cap', 28), ('parser-sa-ntl', 70), ('parser-ntlfuture', 100), ('parser-ntlcollide', 45), ('parser-alias', 42), ('parser-collide', 84)])
 
 def fam_dbuf(rule):
     return dict(run=run_dbuf, trace_module='DecoderBuf_Trace', rule=rule, assumptions=DBUF_ASSUME)
